@@ -270,8 +270,10 @@ def tissue_spec(ck, case):
             a, b = b, a
         dens = draw_decimal(rng, float(rng.uniform(0.2, 3.0)), 4, ck, digits=6) if rng.random() < 0.5 else None
         edges.append((free_e[j], a, b, dens, None))
-    for j, (fa, fb) in enumerate(case.get("chords", [])):   # faceless edges between vertices of faces
-        edges.append((free_e[-1 - j], attached[fa % len(attached)], attached[fb % len(attached)], "2.5", None))
+    for j in range(case.get("chords", 0)):          # faceless edges between two vertices of faces
+        a, b = (attached[int(i)] for i in rng.choice(len(attached), size=2, replace=False))
+        dens = draw_decimal(rng, float(rng.uniform(0.2, 3.0)), 4, ck, digits=6) if rng.random() < 0.5 else None
+        edges.append((free_e[-1 - j], a, b, dens, None))
     order = case.get("order", "sorted")
     if order == "sorted":
         verts.sort(key=lambda r: r[0]); edges.sort(key=lambda r: r[0])
@@ -401,9 +403,7 @@ def oracle(ck, spec, exp, obs, case):
     if missing:
         ck.fail("one mesh edge per edge record of a face", f"missing {missing[:5]}", case)
     if surplus:
-        only_chords = set(surplus) <= set(exp["chords"])
-        ck.fail("edges that belong to no face are dropped", f"kept faceless edges {surplus[:5]}", case,
-                signature="faceless-edge-between-face-vertices" if only_chords else None)
+        ck.fail("edges that belong to no face are dropped", f"kept faceless edges {surplus[:5]}", case)
     for k in set(ge) & set(exp["e"]):
         a, b, g = ge[k]
         wa, wb, wg = exp["e"][k]
@@ -504,6 +504,7 @@ def gen_cases(ck):
                 "p_flip": [0.5, 0.0, 1.0, 0.3][int(ck.rng.integers(4))], "p_dens": [1.0, 0.5, 0.0, 0.8][int(ck.rng.integers(4))],
                 "p_orig": [0.0, 0.3, 1.0][int(ck.rng.integers(3))], "p_rev": [0.0, 0.5, 1.0][i % 3],
                 "extra_v": int(ck.rng.integers(0, 6)) if i % 2 else 0, "extra_e": int(ck.rng.integers(0, 8)) if i % 2 else 0,
+                "chords": int(ck.rng.integers(1, 5)) if i % 6 == 1 else 0,
                 "scale": int(ck.rng.integers(0, 9)) if i % 5 else [0, 1][i % 2],
                 "tx": float(np.round(ck.rng.normal() * 10.0 ** int(ck.rng.integers(-3, 3)), 6)),
                 "ty": float(np.round(ck.rng.normal() * 10.0 ** int(ck.rng.integers(-3, 3)), 6)),
@@ -543,7 +544,7 @@ def run(ck):
                "stored in either direction so that faces carry positive and negative references; faces wrapped as shipped (10 per "
                "line), on one line, one reference per line or at random chunk lengths up to 1,2,3,5,7,12,25,60, the closing line "
                "with or without references; edges with/without density and `original N`; vertex `fixed` suffixes; extra "
-               "unattached vertices (|coordinate| 1e-9..1e9) and edges hanging on them; tissue scaled by 1..1e8 and shifted; LF "
+               "unattached vertices (|coordinate| 1e-9..1e9) and edges hanging on them; faceless edges between two vertices of faces; tissue scaled by 1..1e8 and shifted; LF "
                "and CRLF (the shipped files are CRLF); records sorted by id, in generation order or shuffled; body ids equal to "
                "or different from face ids, bodies in face order. Plus the shipped dumps and six malformed layouts "
                "(correspondence only). Non-trivial = at least one face spans several lines or some reference is negative; distinct "
@@ -615,6 +616,7 @@ def run(ck):
                 ck.count("max_face_len", 0); ck.dist["max_face_len"] = max(ck.dist["max_face_len"], max(len(f[1]) for f in spec["faces"]))
                 ck.dist["min_face_len"] = min(ck.dist.get("min_face_len", 10 ** 9), min(len(f[1]) for f in spec["faces"]))
                 ck.count("nl_crlf" if spec["nl"] == "\r\n" else "nl_lf")
+                ck.count("faceless_chords", case.get("chords", 0) if isinstance(case.get("chords", 0), int) else 0)
                 if malformed:
                     ck.count("malformed_K_only")
                 if exp is not None:
